@@ -159,7 +159,7 @@ pub fn run(a: &Args, rep: &mut Report) {
     for &e in gen::EDGES.iter() {
         tss_desc(rep, e, "edge");
     }
-    let n = a.budget(1_000_000, 200_000_000);
+    let n = a.budget(4_000_000, 200_000_000);
     for i in 0..n {
         let (p, c) = gen::u64_edge(&mut r);
         tss_desc(rep, p, c);
